@@ -189,6 +189,7 @@ def _run_shard(shard):
         "nontrivial": ctx.nontrivial,
         "failures": [f + o for f, o in zip(ctx.failures, ctx.origins)],
         "fail_counts": ctx.fail_counts,
+        "capped": any(n > Ctx.MAX_FAIL_PER_CLAUSE for n in ctx.fail_counts.values()),
         "samples": ctx.samples,
         "extra": ctx.extra,
         "wall": time.time() - t0,
@@ -401,6 +402,7 @@ def main(pid, tier, seed):
             agg["nontrivial"] |= res["nontrivial"]
             agg["failures"].extend(res["failures"])
             agg["fail_counts"].update(res["fail_counts"])
+            agg["capped"] = agg.get("capped", False) or res.get("capped", False)
             agg["extra"].update(res["extra"])
             if len(agg["samples"]) < 6:
                 agg["samples"].extend(res["samples"][:1])
@@ -419,9 +421,7 @@ def main(pid, tier, seed):
     known_hits = Counter()
     violations = []
     seen_ident = {}
-    capped = any(
-        n > Ctx.MAX_FAIL_PER_CLAUSE for n in agg["fail_counts"].values()
-    )
+    capped = agg.get("capped", False)
     # deterministic order: simplest (shortest) first
     fails = sorted(agg["failures"], key=lambda f: (f[0], len(canon(f[1])), canon(f[1])))
     shrink_cache = {}
